@@ -14,6 +14,7 @@ import (
 	"runtime"
 	"strings"
 	"sync"
+	"sync/atomic"
 	"time"
 
 	"github.com/google/wuffs/lib/rac"
@@ -349,6 +350,9 @@ func runSeq(tf *testFile, conc int, ops []op, leakCheck bool) seqResult {
 			switch o.kind {
 			case "read":
 				buf := make([]byte, o.a)
+				for i := range buf {
+					buf[i] = 0xAA // the Reader must overwrite what it reports as read (implicit zeroes too)
+				}
 				n, err = r.Read(buf)
 				data = buf[:n]
 				w := errWord(err)
@@ -503,18 +507,26 @@ func (c *testCase) replay(upto int) string {
 	return sb.String()
 }
 
+// hungTotal counts Readers abandoned by the watchdog; after a few, the concurrent levels of the
+// remaining cases are skipped (the run has failed already; every further hang costs 20 s).
+var hungTotal int32
+
 func runCase(c *testCase, leakCheck bool) caseOut {
 	var out caseOut
 	out.lines = append(out.lines, [2]string{c.tf.caseLine(c.id), fmt.Sprintf("ok chunks=%d size=%d valid=%v", len(c.tf.chunks), c.tf.size, c.tf.valid)})
 	for _, lv := range c.levels {
+		if lv > 1 && atomic.LoadInt32(&hungTotal) >= 3 {
+			continue
+		}
 		out.lines = append(out.lines, [2]string{fmt.Sprintf("open c=%d", lv), "ok"})
-		res := runSeq(c.tf, lv, c.ops, leakCheck)
+		res := runSeq(c.tf, lv, c.ops, leakCheck && atomic.LoadInt32(&hungTotal) == 0)
 		for i, o := range res.outs {
 			out.lines = append(out.lines, [2]string{c.ops[i].line(), o})
 		}
 		out.fails = append(out.fails, res.fails...)
 		if res.hung {
 			out.hung++
+			atomic.AddInt32(&hungTotal, 1)
 		}
 		out.got = out.got || res.gotBytes
 	}
@@ -575,7 +587,7 @@ func main() {
 		raceMain(r)
 		return
 	}
-	nCases := 260
+	nCases := 170
 	if r.Thorough {
 		nCases = 9000
 	}
@@ -668,6 +680,13 @@ func main() {
 			}
 		}
 	}
+	// two fixed protocol traces through the compiled Conc model (consistency of driver and proofs):
+	// "read, seek, read" with one worker is a path of the repaired protocol; the continuation that
+	// the original code takes (stale request sent after the cancel) is not.
+	const tr = "firstRead roi mgrMake:1 mgrSend wRecv:0 mgrMake:1 mgrSend mgrMake:1 wMake:0:0 wSend:0 wMake:0:0 wSend:0 readDone " +
+		"cancel stopMgr stopW:0 recycle ackMgr ackW:0 ackDone"
+	r.Op("trace n=1 "+tr+" roi mgrMake:1 mgrSend wRecycle:0 wRecv:0 wMake:0:1 wSend:0 recvRes take:0 recycleCurr readDone close stopW:0 stopMgr recycle ackW:0 ackMgr ackDone", "accepted")
+	r.Op("trace n=1 "+tr+" mgrSend", "rejected at 20 mgrSend")
 	// ---- emit in order
 	fullReplays := 0
 	for i, c := range cases {
